@@ -42,7 +42,8 @@ EXTRA['spellings'] = dict(
              'Sheet1!E1': ['Sheet1!A1', 'Sheet1!A2', 'Sheet1!A3', 'Sheet1!B1']},
 )
 CLOSURES = {
-    'chain': {'Sheet1!B1': ['Sheet1!A1'], 'Sheet1!C1': ['Sheet1!B1', 'Sheet1!A1', 'Sheet1!A2'], 'Sheet1!D1': ['Sheet1!C1', 'Sheet1!B1', 'Sheet1!A1', 'Sheet1!A2']},
+    'chain': {'Sheet1!B1': ['Sheet1!A1'], 'Sheet1!C1': ['Sheet1!B1', 'Sheet1!A1', 'Sheet1!A2'], 'Sheet1!D1': ['Sheet1!C1', 'Sheet1!B1', 'Sheet1!A1', 'Sheet1!A2'],
+              'Sheet1!E1': ['Sheet1!A1', 'Sheet1!A2']},
     'diamond': {'Sheet1!B1': ['Sheet1!A1'], 'Sheet1!C1': ['Sheet1!A1'], 'Sheet1!D1': ['Sheet1!B1', 'Sheet1!C1', 'Sheet1!A1'],
                 'Sheet1!E1': ['Sheet1!D1', 'Sheet1!B1', 'Sheet1!C1', 'Sheet1!A1']},
     'range': {'Sheet1!Z1': ['Sheet1!A1', 'Sheet1!A2', 'Sheet1!A3', 'Sheet1!C1'], 'Sheet1!Z2': ['Sheet1!Z1', 'Sheet1!A1', 'Sheet1!A2', 'Sheet1!A3', 'Sheet1!C1'],
@@ -153,7 +154,7 @@ def extract_obs(mname, spec, closure, timeout, nchanges, sparse=False):
 def build(tier, seed):
     thorough = tier == 'thorough'
     obs = []
-    specs = {k: v for k, v in MODELS.items() if not (v.get('typed') or v.get('absent'))}
+    specs = {k: v for k, v in MODELS.items() if not (v.get('typed') or v.get('absent') or 'C13' in v.get('skip', ()))}
     for mname, spec in specs.items():
         obs += extract_obs(mname, spec, CLOSURES[mname], 900 if thorough else 400, 2 if thorough else 1)
     obs += extract_obs('deep', EXTRA['deep'], EXTRA['deep']['closure'], 3000 if thorough else 600, 2 if thorough else 1, sparse=not thorough)
